@@ -56,10 +56,14 @@ def decode(flag):
     return sw, ("busy" if flag & F_BUSY else "wait")
 
 
-def mk_run(capreq, flag, W, R, nw, nr, base, lim, sched):
+def mk_run(capreq, flag, W, R, nw, nr, base, lim, sched, fx=0):
+    """fx > 0: a parked futex wait returns -1/EINTR (nobody woke it) with probability fx/1000 per
+    scheduling decision — legal Linux behaviour (signal without SA_RESTART) that real hardware runs
+    almost never show; the code must re-check the cursor and go back to sleep."""
     sw, rmode = decode(flag)
     cap = next_pow2(capreq)
-    return {"conf": ["conf %d %d %d %d %d %d %d %d" % (capreq, flag, W, R, nw, nr, base, lim)],
+    return {"conf": ["conf %d %d %d %d %d %d %d %d" % (capreq, flag, W, R, nw, nr, base, lim)] +
+                    (["spurious-futex %d" % fx] if fx else []),
             "sched": sched, "cap": cap, "flag": flag, "rmode": rmode, "single_writer": sw,
             "W": W, "R": R, "nw": nw, "nr": nr, "base": base, "lim": lim,
             "pre": 0 if rmode == "once" else base % cap}
@@ -221,9 +225,10 @@ def gen_runs(ctx):
         nw = rng.choice([3, 5, 8, 12])
         M = nw * W
         nr = M // R if rmode == "once" else min(M, 128)
+        fx = rng.choice([0, 0, 0, 200, 500]) if rmode != "busy" else 0
         runs.append(mk_run(capreq, flags_for(rmode, sw, rng), W, R, nw, nr,
                            rng.choice(BASES + [rng.randrange(0, 1 << 32)]),
-                           rng.choice([cap - 1, cap - 1, 1, max(1, cap // 2)]), sched_of(rng, 0.3)))
+                           rng.choice([cap - 1, cap - 1, 1, max(1, cap // 2)]), sched_of(rng, 0.3), fx=fx))
     return runs
 
 
@@ -275,8 +280,9 @@ def c03_runs(ctx):
         nr = M // R if rmode == "once" else M
         lim = rng.choice([1, 1, 2, cap - 1])
         lim = max(1, min(lim, cap - 1))
+        fx = rng.choice([0, 0, 100, 300, 600]) if rmode != "busy" else 0
         runs.append(mk_run(capreq, flags_for(rmode, sw, rng), W, R, nw, nr, rng.choice(BASES[:4]), lim,
-                           sched_of(rng, 0.6)))
+                           sched_of(rng, 0.6), fx=fx))
     return runs
 
 
@@ -433,7 +439,8 @@ def replay(ctx, path):
         print(msg)
         return 1
     sched = next((l[len("schedule "):] for l in a["out"] if l.startswith("schedule ")), "")
-    b = vlib.run_one(dcmd, [conf, "sched replay " + sched, "run"])
+    b = vlib.run_one(dcmd, [l for l in ops if not l.startswith("sched ") and l != "run"] +
+                     ["sched replay " + sched, "run"])
     strip = lambda ls: [l for l in ls if not l.startswith("#")]
     if strip(a["out"]) != strip(b["out"]):
         print("model and implementation traces differ")
